@@ -946,7 +946,30 @@ class Sweep:
         if self.iso is None:
             self.iso = self.ctx.Pool(16, initializer=_init_worker, initargs=(self.sandbox,))
         self.evaluations += len(jobs)
-        return self.iso.map(fn or _isolated, jobs, chunksize=1)
+        fn = fn or _isolated
+        # the worker bounds the evaluation by processor time; the parent bounds the whole job by wall-clock time as
+        # well (building the arguments and measuring the result are outside the worker's alarm): a job that does
+        # not come back is a timeout, its worker is given up with the pool
+        out = []
+        bound = ISOLATED_S * WALL_FACTOR + 120
+        late = "the job did not come back within the parent's wall-clock bound"
+        for k in range(0, len(jobs), 16):            # one job per worker: every job of a batch starts at once
+            if self.iso is None:
+                self.iso = self.ctx.Pool(16, initializer=_init_worker, initargs=(self.sandbox,))
+            batch = [self.iso.apply_async(fn, (j,)) for j in jobs[k:k + 16]]
+            deadline = time.time() + bound
+            lost = False
+            for a in batch:
+                try:
+                    out.append(a.get(timeout=max(1, deadline - time.time())))
+                except multiprocessing.TimeoutError:
+                    lost = True
+                    out.append("timeout" if fn is _isolated_caught else (("timeout", late, -1) if fn is _isolated_sized else ("timeout", late)))
+            if lost:
+                self.iso.terminate()
+                self.iso.join()
+                self.iso = None
+        return out
 
     def execute(self, jobs, chunk=250):
         """jobs -> list of dicts {out, detail, caught, scaled, witness}, same order.
